@@ -646,11 +646,11 @@ func (g *planGen) prop(env genEnv, s string, li *int, depth int) *PProp {
 		emit(wPlain(p.Lex, p.Lang))
 	case kind < 32:
 		p.Kind, p.Lex = "typed", g.text(1)
-		e2 := env
-		p.DT, p.Ref = g.ref(e2)
 		if g.r.Chance(60) {
 			p.Ref = vh.Pick(g.r, dtPool)
 			p.DT = rfcResolve(env.base, p.Ref)
+		} else {
+			p.DT, p.Ref = g.ref(env)
 		}
 		emit(wLit(p.Lex, p.DT, nil))
 	case kind < 38:
